@@ -48,6 +48,42 @@ def run(ctx):
     ctx.step(c12.reentrancy_rule, ctx, "C13.reentrancy")
     # a handle's registration record is reclaimed only after the handle gave it back: every handle does so exactly once
     ctx.step(common.raii_token_moves, ctx, "C13.balance", ["rcu_list.hpp", "rcu_guarded.hpp"])
+    ctx.step(retire_once, ctx)
+
+
+RCU = "gmlc::libguarded::rcu_list"
+
+
+def retire_once(ctx, rid="C13.retire-once"):
+    """a node gets exactly one reclamation record: whoever writes a record for a node marks the node `deleted` (under
+    the write mutex), and erase() refuses marked nodes.  An operation that retires nodes without marking them lets an
+    iterator obtained earlier retire the same node again: it is then destroyed and freed twice."""
+    ctx.rule(rid, "every operation that creates a reclamation record for a node marks that node deleted", floor=1)
+    n = 0
+    for f in ctx.fb.functions(rec=RCU):
+        if f.kind in ("ctor", "dtor"):
+            continue
+        recs = [st for st in f.stmts.values() if st["k"] == "CallExpr" and re.match(r"^std::allocator_traits<.*>::construct$", callee_fq(st))
+                and len(st["args"]) == 3 and "zombie_list_node" in (f.s(st["args"][1]) or {}).get("t", "")]
+        if not recs:
+            continue
+        n += 1
+        marks = []
+        for st in f.stmts.values():
+            if st["k"] == "BinaryOperator" and st.get("op") == "=":
+                l, r = f.children(st)
+                lu = unwrap(f, l)
+                if lu is not None and lu["k"] == "MemberExpr" and lu["m"].get("name") == "deleted":
+                    rv = unwrap(f, r)
+                    if rv is not None and rv["k"] == "CXXBoolLiteralExpr" and rv["v"] is True:
+                        marks.append(st)
+        ok = bool(marks)
+        ctx.ob(rid, ok, f.loc(recs[0]), "%s marks the node it retires" % f.name, "" if ok else
+               "%s writes a reclamation record for a node but never sets node::deleted: erase() through an iterator taken "
+               "earlier accepts the node again, it gets a second record and is destroyed and deallocated twice" % f.name,
+               fn=f.label, inst=f.qname)
+    if n == 0:
+        ctx.broken("no function of rcu_list constructs a zombie_list_node record (anchor vanished)")
 
 
 def nullable(ctx):
